@@ -139,13 +139,13 @@ def call_builtin(engine, st, fr, name, args, kwargs, star, starkw, node):
             yield st, a[0]
     elif name == "super":
         raise Unsupported("super as value")
-    elif name in ("abs", "divmod", "pow", "round", "complex", "int", "float", "iter", "math.floor", "math.ceil", "bool"):
+    elif name in ("abs", "divmod", "pow", "round", "complex", "int", "float", "iter", "math.floor", "math.ceil", "math.trunc", "bool"):
         if name == "bool":
             t = engine.truth(st, a[0])
             yield st, (t if isinstance(t, bool) else Z(t, "bool"))
             return
         x = a[0]
-        rest = TupleV(a[1:]) if len(a) > 1 else None
+        rest = (a[1] if len(a) == 2 else TupleV(a[1:])) if len(a) > 1 else None
         if star is not None:
             rest = star
         for r in b_ops.opaque_operator(engine, st, fr, name, [x, rest] if rest is not None else [x], node):
@@ -331,7 +331,10 @@ def call_method(engine, st, fr, recv, mname, args, kwargs, star, starkw, node):
     elif kind == "object":
         yield st, None
     elif kind == "str":
-        yield st, Z(Val.strv(fresh("strm", I)), "str")
+        if isinstance(recv, str) and all(isinstance(x, (str, int, bool)) for x in a) and hasattr(str, name):
+            yield st, getattr(recv, name)(*a)            # a concrete string method on concrete operands
+        else:
+            yield st, Z(Val.strv(fresh("strm", I)), "str")
     elif kind == "any":
         for r in b_future.opaque_call(engine, st, fr, Bound(recv, name), a, kwargs, star, starkw, node):
             yield r
